@@ -19,7 +19,7 @@ type Op struct {
 
 var OpKinds = []string{"remove-member", "swap-members", "rename-field", "add-field", "remove-message", "add-message",
 	"toggle-required", "change-field-type", "change-type-mapping", "add-enum-values", "add-group", "add-component",
-	"remove-component", "duplicate-field-number", "duplicate-msgtype", "reorder-messages", "add-nested-groups"}
+	"remove-component", "duplicate-field-number", "duplicate-msgtype", "reorder-messages", "add-nested-groups", "move-framing-field"}
 
 // names the generator or the library's interfaces rely on
 var protectedFields = map[string]bool{
@@ -266,6 +266,34 @@ func Apply(base *schema.Schema, baseTM *schema.TypeMap, ops []Op) (s *schema.Sch
 			g := &schema.Member{Kind: "group", Name: gname, Required: op.C%2 == 0, Members: ms}
 			*h.members = append((*h.members)[:pos:pos], append([]*schema.Member{g}, (*h.members)[pos:]...)...)
 			note("add group %s (#%s, %d fields) to %s at %d", gname, num, len(ms), h.label, pos)
+		case "move-framing-field":
+			// BeginString / BodyLength / MsgType (header) or CheckSum (trailer) listed at another position:
+			// the generator leaves them out of the emitted component wherever they stand
+			target := s.Header
+			if op.A%4 == 3 {
+				target = s.Trailer
+			}
+			from := -1
+			k := op.A % 4
+			seen := 0
+			for i, m := range target.Members {
+				if m.Kind == "field" && schema.Framing[m.Name] {
+					if seen == k%3 || target == s.Trailer {
+						from = i
+						break
+					}
+					seen++
+				}
+			}
+			if from < 0 || len(target.Members) < 2 {
+				skip(op, "no framing field to move")
+				continue
+			}
+			m := target.Members[from]
+			rest := append(append([]*schema.Member{}, target.Members[:from]...), target.Members[from+1:]...)
+			to := op.B % (len(rest) + 1)
+			target.Members = append(rest[:to:to], append([]*schema.Member{m}, rest[to:]...)...)
+			note("move framing field %s of the %s from position %d to %d", m.Name, target.Name, from, to)
 		case "add-nested-groups":
 			// group > group > group (> group), all with fresh names, in one step
 			depth := 2 + op.C%3
